@@ -95,8 +95,11 @@ class C12(Check):
             if sp is not None:
                 pieces, (rem_ir, rem_t), defined = sp
                 r = gen.Renderer(d, feat, table)
-                case["pieces"] = [gen.Renderer(d, feat, t).render(pir, "") for pir, t in pieces]
-                case["remainder"] = gen.Renderer(d, feat, rem_t).render(rem_ir, "")
+                # one deterministic spelling for the raw schema, the pieces and the remainder: the three forms must be
+                # the same schema text-wise except for where the definitions live
+                case["schema"] = gen.render_plain(ir)
+                case["pieces"] = [gen.render_plain(pir) for pir, t in pieces]
+                case["remainder"] = gen.render_plain(rem_ir)
             return case
 
         return cases()
